@@ -179,6 +179,40 @@ func ruleDurabilityErrors(r *Run, rule string, k *storeKind) {
 				}
 			}
 		}
+		if field != "" && !(okRet && okGuard) {
+			// single-exit forms (`return errors.Join(flushErr, closeErr)`): decided per path — wherever the recorded error
+			// was found non-nil the returned error is non-nil, and no path past the wait skips the test
+			paths, trunc := enumPaths(fn.Blocks[0], walkCfg{MaxVisits: 1, MaxPaths: 4000 * pathScale, Decide: decideOnPath})
+			wait := callsTo(fn, "(*sync.WaitGroup).Wait")
+			good := !trunc && len(wait) == 1
+			seen := 0
+			for _, p := range paths {
+				if !good {
+					break
+				}
+				if p.End != EndReturn || !p.Feasible() || !p.Has(wait[0]) {
+					continue
+				}
+				tested, nonNil := false, false
+				for _, d := range p.Decisions {
+					bo, isB := d.Cond.(*ssa.BinOp)
+					if !isB || (bo.Op != token.NEQ && bo.Op != token.EQL) || c.S(bo.X) != "P0."+field || c.S(bo.Y) != "nil" {
+						continue
+					}
+					tested = true
+					nonNil = d.Taken == (bo.Op == token.NEQ)
+				}
+				seen++
+				rv := resolveOnPath(p, resultValue(p.Ret, 0))
+				direct := c.S(rv) == "P0."+field
+				if !direct && (!tested || (nonNil && !errNonNilOnPath(p, rv, 0))) {
+					good = false
+				}
+			}
+			if good && seen > 0 {
+				okRet, okGuard = true, true
+			}
+		}
 		r.Check(field != "" && okRet && okGuard, rule, "err:Close:final-flush", w.Pos(fn.Pos())+" "+w.Name(fn), "Close returns the final flush's error (recorded in "+field+") and nil only when it is nil", "the error of the final flush does not reach Close's result")
 		// the read happens after the workers finished
 		wait := callsTo(fn, "(*sync.WaitGroup).Wait")
@@ -460,7 +494,9 @@ func ruleSegmentIDs(r *Run, rule string, k *storeKind) {
 				if call, ok := e.(*ssa.Call); ok {
 					if b, isB := call.Call.Value.(*ssa.Builtin); isB && b.Name() == "max" && len(call.Call.Args) == 2 {
 						a0, a1 := call.Call.Args[0], call.Call.Args[1]
-						parsed := func(v ssa.Value) bool { return phiLeafContains(ci, v, "strconv.ParseUint(", 4) || parsedByHelper(w, v) != nil }
+						parsed := func(v ssa.Value) bool {
+							return phiLeafContains(ci, v, "strconv.ParseUint(", 4) || parsedByHelper(w, v) != nil
+						}
 						if (a0 == ssa.Value(ph) && parsed(a1)) || (a1 == ssa.Value(ph) && parsed(a0)) {
 							okMax = true
 						}
@@ -629,6 +665,12 @@ func ruleOpenIsLazy(r *Run, rule string, k *storeKind) {
 			switch x := val.(type) {
 			case *ssa.Const:
 				return true
+			case *ssa.UnOp:
+				// a sentinel: package-level error variable initialised once with errors.New / fmt.Errorf
+				if g, isG := x.X.(*ssa.Global); isG && x.Op == token.MUL && isSentinelError(w, g) {
+					src = "sentinel " + g.Name()
+					return true
+				}
 			case *ssa.Phi:
 				for _, e := range x.Edges {
 					if e != val && !origin(e, depth+1) {
@@ -745,7 +787,9 @@ func ruleSegmentLoad(r *Run, p string, k *storeKind) {
 			esc := reachAvoidAt(errSucc, 0, func(in ssa.Instruction) bool {
 				switch x := in.(type) {
 				case *ssa.Send:
-					return true
+					// telling the collector why the segment is skipped is harmless as long as the message carries no hits and
+					// the collector never turns it into a failure of the search
+					return !harmlessOutcomeSend(w, x)
 				case *ssa.Store:
 					return !isLocalCell(x.Addr)
 				case *ssa.Panic:
@@ -754,6 +798,32 @@ func ruleSegmentLoad(r *Run, p string, k *storeKind) {
 				return false
 			}, func(in ssa.Instruction) bool { _, isRet := in.(*ssa.Return); return isRet })
 			ok = esc == nil
+			if !ok {
+				// the failure may be carried in a flag to a single exit (`if ok { send }`): decided per path
+				paths, trunc := enumPaths(errSucc, walkCfg{MaxVisits: 1, MaxPaths: 2000 * pathScale, Decide: decideOnPath})
+				if !trunc && len(paths) > 0 {
+					ok = true
+					for _, pth := range paths {
+						if !pth.Feasible() {
+							continue
+						}
+						for _, in := range pth.Instrs() {
+							switch x := in.(type) {
+							case *ssa.Send:
+								if !harmlessOutcomeSend(w, x) {
+									ok = false
+								}
+							case *ssa.Store:
+								if !isLocalCell(x.Addr) {
+									ok = false
+								}
+							case *ssa.Panic:
+								ok = false
+							}
+						}
+					}
+				}
+			}
 		}
 		r.Check(ok, p+".SKIP", "skip:load-error", w.InstrPos(gi)+" "+w.Name(seg), "a segment that fails to load contributes nothing and does not fail the search", "a segment load error is reported / stored instead of skipping the segment")
 		r.Check(seg.Signature.Results().Len() == 0, p+".SKIP", "skip:no-result", w.Pos(seg.Pos())+" "+w.Name(seg), "the per-segment goroutine has no error result", "the per-segment goroutine returns a value")
@@ -808,14 +878,52 @@ func ruleSegmentLoad(r *Run, p string, k *storeKind) {
 		return nil
 	}
 	rfOK := succOf(rf, 1)
+	// when failures travel through a variable to one test (`if err := decode(); err != nil` once decode is inlined) the
+	// dominance form below does not apply: the same three facts are then decided on every path that reaches the store
+	pathFacts := func(st *ssa.Store) (decoded, drained bool) {
+		paths, trunc := enumPaths(fn.Blocks[0], walkCfg{MaxVisits: 1, MaxPaths: 20000 * pathScale, Decide: decideOnPath,
+			Stop: func(b *ssa.BasicBlock) bool { return b == st.Block() }})
+		if trunc {
+			return false, false
+		}
+		decoded, drained = true, true
+		n := 0
+		for _, pth := range paths {
+			if pth.End != EndStop || !pth.Feasible() {
+				continue
+			}
+			n++
+			if !pth.Has(rf) || !errNilDecidedOnPath(pth, rf, 1) {
+				decoded = false
+			}
+			if drain == nil || !pth.Has(drain) || !errNilDecidedOnPath(pth, drain, 1) || !orderedOnPath(pth, rf, drain) {
+				drained = false
+			}
+		}
+		if n == 0 {
+			return false, false
+		}
+		return decoded, drained
+	}
 	for i, st := range stores {
 		ok := rfOK != nil && (rfOK == st.Block() || rfOK.Dominates(st.Block()))
+		pDecoded, pDrained := false, false
+		if !ok {
+			pDecoded, pDrained = pathFacts(st)
+			ok = pDecoded
+		}
 		r.Check(ok, p+".WHOLE", fmt.Sprintf("whole:cache-after-decode#%d", i), w.InstrPos(st)+" "+name, "the index is cached only after the single ReadFrom over all components succeeded", "the index is cached before / regardless of the success of decoding")
 		okDrain := false
 		if drain != nil {
 			if ds := succOf(drain, 1); ds != nil && (ds == st.Block() || ds.Dominates(st.Block())) && domInstr(rf, drain) {
 				okDrain = true
 			}
+		}
+		if !okDrain {
+			if !pDecoded {
+				_, pDrained = pathFacts(st)
+			}
+			okDrain = pDrained
 		}
 		r.Check(okDrain, p+".WHOLE", fmt.Sprintf("whole:verify-to-eof#%d", i), w.InstrPos(st)+" "+name, "the concatenated stream is read to EOF with the error checked before caching (gzip verifies the last component's trailer; trailing bytes are rejected)", "the stream is not drained to EOF before the index is cached: the last component's gzip trailer is never verified")
 		// the cached value is the freshly decoded index
@@ -834,7 +942,30 @@ func ruleSegmentLoad(r *Run, p string, k *storeKind) {
 		}
 		t := iff.Block().Succs[0]
 		if ret, ok := t.Instrs[len(t.Instrs)-1].(*ssa.Return); !ok || classifyErr(ret) != ErrNonNil {
-			badFall = w.InstrPos(iff)
+			// the failure may be handed to a single exit through a variable: every path from here ends in a failing return
+			// without caching anything
+			paths, trunc := enumPaths(t, walkCfg{MaxVisits: 1, MaxPaths: 4000 * pathScale, Decide: decideOnPath})
+			good, n := !trunc, 0
+			for _, pth := range paths {
+				if !good {
+					break
+				}
+				if !pth.Feasible() {
+					continue
+				}
+				n++
+				if pth.End != EndReturn || pathErrClass(pth) != ErrNonNil {
+					good = false
+				}
+				for _, st := range stores {
+					if pth.Has(st) {
+						good = false
+					}
+				}
+			}
+			if !good || n == 0 {
+				badFall = w.InstrPos(iff)
+			}
 		}
 	})
 	r.Check(badFall == "", p+".WHOLE", "whole:errors-returned", site, "every failing open / decode step returns a non-nil error at once", "the error tested at "+badFall+" does not lead to an immediate error return")
@@ -1699,4 +1830,244 @@ func ruleClosedFirst(r *Run, rule string, fn *ssa.Function, recv string) {
 		}
 	})
 	r.Check(okErr && locked && okDom, rule, "closed-first:"+name, w.InstrPos(test)+" "+name, "closed is read under the mutex, a closed handle fails before queue / segments / provider are touched", fmt.Sprintf("closed test: error=%v under-mutex=%v dominates-uses=%v", okErr, locked, okDom))
+}
+
+// isSentinelError: g is a package-level error variable of comet assigned only by the package initialiser, from
+// errors.New or fmt.Errorf.
+func isSentinelError(w *World, g *ssa.Global) bool {
+	if g.Pkg != w.SPkg || !types.Identical(g.Type().(*types.Pointer).Elem(), errorType) {
+		return false
+	}
+	stores := 0
+	ok := true
+	for _, fn := range w.SPkg.Members {
+		f, isF := fn.(*ssa.Function)
+		if !isF {
+			continue
+		}
+		allInstrs(f, func(in ssa.Instruction) {
+			if st, isSt := in.(*ssa.Store); isSt && st.Addr == ssa.Value(g) {
+				stores++
+				if f.Name() != "init" {
+					ok = false
+				}
+				v := st.Val
+				if mi, isMI := v.(*ssa.MakeInterface); isMI {
+					v = mi.X
+				}
+				c, isC := v.(*ssa.Call)
+				if !isC || (calleeName(c.Common()) != "errors.New" && calleeName(c.Common()) != "fmt.Errorf") {
+					ok = false
+				}
+			}
+		})
+	}
+	// stores from methods / closures elsewhere
+	for _, f := range w.Funcs {
+		allInstrs(f, func(in ssa.Instruction) {
+			if st, isSt := in.(*ssa.Store); isSt && st.Addr == ssa.Value(g) {
+				ok = false
+			}
+		})
+	}
+	return ok && stores == 1
+}
+
+// errNonNilOnPath: the error value v is certainly non-nil on path p (errors.Join is non-nil as soon as one operand is).
+func errNonNilOnPath(p *Path, v ssa.Value, depth int) bool {
+	if depth > 4 {
+		return false
+	}
+	v = resolveOnPath(p, v)
+	if p.Ret != nil && classifyErrVal(v, p.Ret.Block()) == ErrNonNil {
+		return true
+	}
+	if call, ok := v.(*ssa.Call); ok && calleeName(call.Common()) == "errors.Join" && len(call.Call.Args) == 1 {
+		if es, ok := sliceElems(call.Call.Args[0]); ok {
+			for _, e := range es {
+				if errNonNilOnPath(p, e, depth+1) {
+					return true
+				}
+			}
+		}
+	}
+	return false
+}
+
+// harmlessOutcomeSend: the sent value is a struct literal that sets no slice-typed (hits) field, and in every function
+// that receives from a channel of that struct type nothing derived from a received value reaches a return's error
+// result or a panic.
+func harmlessOutcomeSend(w *World, send *ssa.Send) bool {
+	fields, ok := litFields(send.X)
+	if !ok {
+		return false
+	}
+	st, isStruct := send.X.Type().Underlying().(*types.Struct)
+	if !isStruct {
+		return false
+	}
+	for i := 0; i < st.NumFields(); i++ {
+		if v, set := fields[roleFieldName(send.X.Type(), st.Field(i).Name())]; set {
+			if _, isSlice := st.Field(i).Type().Underlying().(*types.Slice); isSlice {
+				if c, isC := v.(*ssa.Const); !isC || c.Value != nil {
+					return false
+				}
+			}
+		}
+	}
+	receivers := 0
+	for _, fn := range w.Funcs {
+		tainted := map[ssa.Value]bool{}
+		var work []ssa.Value
+		add := func(v ssa.Value) {
+			if v != nil && !tainted[v] {
+				tainted[v] = true
+				work = append(work, v)
+			}
+		}
+		allInstrs(fn, func(in ssa.Instruction) {
+			if u, isU := in.(*ssa.UnOp); isU && u.Op == token.ARROW {
+				if ch, isCh := u.X.Type().Underlying().(*types.Chan); isCh && types.Identical(ch.Elem(), send.X.Type()) {
+					add(u)
+				}
+			}
+			if sel, isSel := in.(*ssa.Select); isSel {
+				for _, stt := range sel.States {
+					if ch, isCh := stt.Chan.Type().Underlying().(*types.Chan); isCh && stt.Dir == types.RecvOnly && types.Identical(ch.Elem(), send.X.Type()) {
+						add(sel)
+					}
+				}
+			}
+		})
+		if len(work) == 0 {
+			continue
+		}
+		receivers++
+		bad := false
+		for len(work) > 0 {
+			v := work[0]
+			work = work[1:]
+			if v.Referrers() == nil {
+				continue
+			}
+			for _, ref := range *v.Referrers() {
+				switch x := ref.(type) {
+				case *ssa.Return:
+					for i, res := range x.Results {
+						if res == v && types.Identical(fn.Signature.Results().At(i).Type(), errorType) {
+							bad = true
+						}
+						if res == v && fn.Signature.Results().At(i).Type().String() != "bool" && !types.Identical(fn.Signature.Results().At(i).Type(), errorType) {
+							// hits travel on; only the error matters here
+							_ = res
+						}
+					}
+				case *ssa.Panic:
+					bad = true
+				case *ssa.Store:
+					if x.Val == v {
+						if a, isA := x.Addr.(*ssa.Alloc); isA {
+							for _, r2 := range *a.Referrers() {
+								if ld, isLd := r2.(*ssa.UnOp); isLd && ld.Op == token.MUL {
+									add(ld)
+								}
+							}
+						} else if ia, isIA := x.Addr.(*ssa.IndexAddr); isIA {
+							// element of a (varargs) slice / array: the container is tainted
+							root := ia.X
+							add(root)
+							if a, isA := root.(*ssa.Alloc); isA {
+								for _, r2 := range *a.Referrers() {
+									if vv, isV := r2.(ssa.Value); isV {
+										add(vv)
+									}
+								}
+							}
+						} else if !isLocalCell(x.Addr) {
+							// recorded in shared state: allowed only if that state never feeds an error result (not tracked)
+							if types.Identical(x.Val.Type(), errorType) {
+								continue
+							}
+						}
+					}
+				case *ssa.If:
+					// a branch on a received value that commits to a failing return
+					for _, succ := range x.Block().Succs {
+						for _, ret := range returnsOf(fn) {
+							if succ.Dominates(ret.Block()) && errIndex(fn) >= 0 && classifyErr(ret) != ErrNil {
+								bad = true
+							}
+						}
+						allInstrs(fn, func(in ssa.Instruction) {
+							if _, isP := in.(*ssa.Panic); isP && succ.Dominates(in.Block()) {
+								bad = true
+							}
+						})
+					}
+				case ssa.Value:
+					add(x)
+				}
+			}
+		}
+		if bad {
+			return false
+		}
+	}
+	return receivers > 0
+}
+
+// errNilDecidedOnPath: some branch on path p tested result #idx of call (its error) against nil and took the nil outcome.
+func errNilDecidedOnPath(p *Path, call *ssa.Call, idx int) bool {
+	for _, d := range p.Decisions {
+		bo, ok := d.Cond.(*ssa.BinOp)
+		if !ok || (bo.Op != token.EQL && bo.Op != token.NEQ) {
+			continue
+		}
+		isNil := func(y ssa.Value) bool { c, ok := y.(*ssa.Const); return ok && c.Value == nil }
+		var x ssa.Value
+		switch {
+		case isNil(bo.Y):
+			x = bo.X
+		case isNil(bo.X):
+			x = bo.Y
+		default:
+			continue
+		}
+		for i := 0; i < 8; i++ {
+			ph, isPhi := x.(*ssa.Phi)
+			if !isPhi {
+				break
+			}
+			e := p.PhiEdgeAt(ph, d.At)
+			if e == nil {
+				break
+			}
+			x = e
+		}
+		match := false
+		if ex, isEx := x.(*ssa.Extract); isEx && ex.Tuple == ssa.Value(call) && ex.Index == idx {
+			match = true
+		}
+		if x == ssa.Value(call) && call.Type() != nil && types.Identical(call.Type(), errorType) {
+			match = true
+		}
+		if match && d.Taken == (bo.Op == token.EQL) {
+			return true
+		}
+	}
+	return false
+}
+
+// orderedOnPath: a is executed before b on path p.
+func orderedOnPath(p *Path, a, b ssa.Instruction) bool {
+	seenA := false
+	for _, in := range p.Instrs() {
+		if in == a {
+			seenA = true
+		}
+		if in == b {
+			return seenA
+		}
+	}
+	return false
 }
